@@ -56,6 +56,9 @@ func init() {
 		ID: "C13",
 		Rules: []RuleSpec{
 			{"opcode-tables", "every Opcode constant is valid in the decoder table, dispatched by vm.execute (arm or PUSHINT range test, faulting default), priced in fee.coefficients, and operand usage agrees between decoder and dispatcher", ruleOpcodeTables},
+			{"bigint-ctor", "conversions to *stackitem.BigInteger exist only in package stackitem, each after CheckIntegerSize or from a <=64-bit source (every integer result passes the 256-bit range check)", ruleBigintCtor},
+			{"operand-immutable", "a big.Int obtained from a stack item is never the receiver of a big.Int mutator in pkg/vm", ruleOperandImmutable},
+			{"map-index-comaintenance", "every function that re-shapes the element slice of a stackitem.Map updates its key index too", ruleMapIndex},
 		},
 		NotCovered: "numeric semantics at the 256-bit boundary, remainder signs, shift rounding, conversion rules — everything an independent specification would compare; the heart of C13 is not statically decidable here",
 	})
